@@ -8,7 +8,7 @@
    structure (slots incl. emptied ones, child arrays, parent ids), node ids
    canonicalised by a depth-first walk from the root on both sides. *)
 From Coq Require Import List ZArith NArith Bool.
-From SopVerif Require Import OMap Btree BtreeSim.
+From SopVerif Require Import OMap Btree BtreeSim BtreeWF.
 Import ListNotations.
 Local Open Scope Z_scope.
 
@@ -116,6 +116,7 @@ Definition step_ok (cfg : bcfg) (inmem : bool) (b : bstate) (o : option omap) (s
       let op := dec_op c a0 b0 in
       let '(b', r) := bstep cfg b op in
       if negb (Z.eqb (djb (obs_vec inmem b' r)) d) then None
+      else if negb (clb cfg) && negb (wfb cfg b') then None   (* the invariant, on every reached state *)
       else
         match o with
         | None => Some (b', None, false)
